@@ -33,8 +33,8 @@ PROPS = {
                      "C10_*: on every transcript of Loop.run the sends are exactly the non-empty step outputs for the key events read, every poll finds all notified devices drained to Busy (no unread event without a pending readiness edge in LoopEnv), nothing follows End; observation OBS_C10 = key reads, sends not following a time-out, polls with the undrained flag, End, up to the first tablet event or Err"),
     "C11": loop_prop(["OBS_C11", "TIMEOUT"], ["C11"],
                      "C11_*: time-out requested = next_wakeup - now (1 ms when late) with next_wakeup = t0 + delay + (k-1)*interval independent of later readings, chord = non-held keys pressed in order and released in reverse leaving the held set unchanged, sent only directly after a TimedOut while repeating outside tablet mode, any acted key event or tablet event cancels; observation OBS_C11 = polls (with/without time-out), time-outs, sends following a time-out; TIMEOUT = requested time-outs within tolerance"),
-    "C12": loop_prop(["OBS_C12"], ["C12"],
-                     "C12_*: after On one send (omitted if empty) leaves nothing held, no send until Off, after a tablet event the loop behaves like a fresh mapper; observation OBS_C12 = tablet events, the send following each, sends while the switch is on"),
+    "C12": loop_prop(["OBS_C12"], ["C12", "C11.cancel", "C11.only_then"],
+                     "C12_*: after On one send (omitted if empty) leaves nothing held, no send until Off, after a tablet event the loop behaves like a fresh mapper (which includes: no repeat timer survives it - clauses C11.cancel / C11.only_then are listened to as well, theorem C11_cancel_on_tablet_event); observation OBS_C12 = tablet events, the send following each, sends while the switch is on"),
     "C20": loop_prop(["OBS_C20"], ["C20"],
                      "C20_error_stops: an Err answer to any driver call is the last entry of the transcript and the return value; observation OBS_C20 = calls after the Err answer and the return value, with an Err injected at every call index"),
 }
